@@ -107,17 +107,21 @@ theorem qdec_addAll {q : EQ (PBody τ μ)} {hist : List (PBody τ μ)} (h : QDec
     rw [h2.2.2, h1.2.2.1]
     simp
 
-/-! ### the invariant -/
+omit [DecidableEq τ] in
+theorem qdec_rest_le {q : EQ (PBody τ μ)} {hist : List (PBody τ μ)} (h : QDec q hist) :
+    q.done.length + q.rest.length ≤ hist.length := by
+  obtain ⟨_, _, pre, dl, rl, hh, hd, hr⟩ := h
+  simp [hh, hd, hr]
 
-/-- facts that hold while R's session belongs to S's current queue epoch (`ss` = R's session) -/
+/-! ### the invariant (protocol with the fixes of 086aedd: `fixed = true`) -/
+
+/-- facts that hold while R's session is the one S's queue belongs to (`ss` = R's session, `ackFloor ≤ ss.next`) -/
 structure AInv (st : St τ μ) (ss : Sess) : Prop where
   /-- applied = a prefix of what S emitted in this epoch, in emission order -/
   pref   : st.r.applied <+: st.s.hist
   /-- number applied = nextEventID, or one more when the last ack could not be sent (then that id is in the LRU) -/
   m      : st.r.applied.length = ss.next ∨ (st.r.applied.length = ss.next + 1 ∧ ss.next ∈ ss.seen.items)
   seenlt : ∀ i ∈ ss.seen.items, i < st.r.applied.length
-  /-- first id still queued ≤ nextEventID -/
-  front  : st.s.hist.length ≤ ss.next + st.s.q.done.length + st.s.q.rest.length
   /-- nextEventID ≤ id under the send cursor -/
   nextr  : ss.next + st.s.q.rest.length ≤ st.s.hist.length
   /-- the event buffer is the consecutive segment [nextEventID, cursor) -/
@@ -125,85 +129,128 @@ structure AInv (st : St τ μ) (ss : Sess) : Prop where
              st.s.hist = hpre ++ ul ++ st.s.q.rest.map (·.body)
   down   : ∀ i ∈ st.c.down, i < ss.next
   subs   : st.r.subs = view st.r.applied
-  topics : ∀ t, t ∈ view st.s.hist ↔ t ∈ st.s.topics
+
+/-- R's session was re-created by a Hello whose answer S never saw: it is empty, and the stream is down -/
+structure Stale (st : St τ μ) (ss : Sess) : Prop where
+  next0  : ss.next = 0
+  seen0  : ss.seen.items = []
+  app0   : st.r.applied = []
+  subs0  : st.r.subs = []
+  closed : st.c.isOpen = false
 
 structure Inv (st : St τ μ) : Prop where
-  qdec    : QDec st.s.q st.s.hist
-  sidle   : ∀ ss, st.r.sess = some ss → ss.id ≤ st.s.sid
-  openal  : st.c.isOpen = true → Aligned st ∧ st.s.q.closed = false
-  closedc : st.c.isOpen = false → st.c.up = [] ∧ st.c.down = []
-  al      : ∀ ss, st.r.sess = some ss → ss.id = st.s.sid → AInv st ss
+  qdec     : QDec st.s.q st.s.hist
+  /-- first id still queued ≤ ackFloor -/
+  floorq   : st.s.hist.length ≤ st.s.ackFloor + st.s.q.done.length + st.s.q.rest.length
+  /-- acks in flight are ascending and not below ackFloor -/
+  downasc  : st.c.down.Pairwise (· < ·) ∧ ∀ i ∈ st.c.down, st.s.ackFloor ≤ i
+  /-- once a clean start has been completed, the history describes the local topic set -/
+  topics   : st.s.synced = true → ∀ t, t ∈ view st.s.hist ↔ t ∈ st.s.topics
+  sidle    : ∀ ss, st.r.sess = some ss → ss.id ≤ st.s.sid
+  unsynced : st.s.synced = false → ∀ ss, st.r.sess = some ss → ss.id < st.s.sid
+  openal   : st.c.isOpen = true → st.s.q.closed = false ∧ InSession st
+  closedc  : st.c.isOpen = false → st.c.up = [] ∧ st.c.down = []
+  al       : ∀ ss, st.r.sess = some ss → ss.id = st.s.sid →
+               (st.s.ackFloor ≤ ss.next → AInv st ss) ∧ (ss.next < st.s.ackFloor → Stale st ss)
 
 theorem inv_init (topics : List τ) (retained : List μ) : Inv (init topics retained) := by
-  refine ⟨qdec_empty, ?_, ?_, ?_, ?_⟩ <;> simp [init]
+  refine ⟨qdec_empty, ?_, ?_, ?_, ?_, ?_, ?_, ?_, ?_⟩ <;> simp [init, EQ.empty]
+
+omit [DecidableEq τ] in
+theorem sess_unique {st : St τ μ} {ss ss' : Sess} (h : st.r.sess = some ss) (h' : st.r.sess = some ss') : ss' = ss :=
+  Option.some.inj (h'.symm.trans h)
+
+/-- an aligned state has completed a clean start -/
+theorem Inv.synced_of_aligned {st : St τ μ} (hi : Inv st) {ss : Sess} (hs : st.r.sess = some ss) (hid : ss.id = st.s.sid) :
+    st.s.synced = true := by
+  cases h : st.s.synced with
+  | true => rfl
+  | false => have := hi.unsynced h ss hs; omega
 
 /-! ### preservation, one lemma per environment step -/
 
-theorem inv_emit {cap : Nat} {st st' : St τ μ} (b : PBody τ μ) (hi : Inv st) (hs : step cap st (.emit b) = some st') : Inv st' := by
+theorem inv_emit {cap : Nat} {st st' : St τ μ} (b : PBody τ μ) (hi : Inv st) (hs : step true cap st (.emit b) = some st') : Inv st' := by
   simp only [step, Option.some.injEq] at hs
   subst hs
   have ha := qdec_add hi.qdec b
-  refine ⟨ha.1, hi.sidle, ?_, hi.closedc, ?_⟩
+  refine ⟨ha.1, ?_, hi.downasc, ?_, hi.sidle, hi.unsynced, ?_, hi.closedc, ?_⟩
+  · have := hi.floorq
+    simp only [ha.2.1, ha.2.2.1, List.length_append, List.length_cons, List.length_nil] at *
+    omega
+  · intro hsy t
+    show t ∈ view (st.s.hist ++ [b]) ↔ t ∈ applyView st.s.topics b
+    rw [view_append]
+    exact applyView_congr (hi.topics hsy) b t
   · intro ho
     have := hi.openal ho
-    exact ⟨this.1, by simpa [ha.2.2.2] using this.2⟩
+    exact ⟨by simpa [ha.2.2.2] using this.1, this.2⟩
   · intro ss hss hid
-    have a := hi.al ss hss hid
-    refine ⟨?_, a.m, a.seenlt, ?_, ?_, ?_, a.down, a.subs, ?_⟩
-    · exact List.IsPrefix.trans a.pref (List.prefix_append _ _)
-    · have := a.front
-      simp only [ha.2.1, ha.2.2.1, List.length_append, List.length_cons, List.length_nil] at *
-      omega
-    · have := a.nextr
-      simp only [ha.2.2.1, List.length_append, List.length_cons, List.length_nil] at *
-      omega
-    · intro ho
-      obtain ⟨hpre, ul, h1, h2, h3⟩ := a.up ho
-      refine ⟨hpre, ul, h1, h2, ?_⟩
-      simp only [ha.2.2.1, List.map_append, List.map_cons, List.map_nil]
-      show st.s.hist ++ [b] = _
-      rw [h3]; simp
-    · intro t
-      show t ∈ view (st.s.hist ++ [b]) ↔ t ∈ applyView st.s.topics b
-      rw [view_append]
-      exact applyView_congr a.topics b t
+    have hal := hi.al ss hss hid
+    refine ⟨fun hf => ?_, fun hf => ?_⟩
+    · have a := hal.1 hf
+      refine ⟨?_, a.m, a.seenlt, ?_, ?_, a.down, a.subs⟩
+      · exact List.IsPrefix.trans a.pref (List.prefix_append _ _)
+      · have := a.nextr
+        simp only [ha.2.2.1, List.length_append, List.length_cons, List.length_nil] at *
+        omega
+      · intro ho
+        obtain ⟨hpre, ul, h1, h2, h3⟩ := a.up ho
+        refine ⟨hpre, ul, h1, h2, ?_⟩
+        simp only [ha.2.2.1, List.map_append, List.map_cons, List.map_nil]
+        show st.s.hist ++ [b] = _
+        rw [h3]; simp
+    · have s := hal.2 hf
+      exact ⟨s.next0, s.seen0, s.app0, s.subs0, s.closed⟩
 
-theorem inv_setRetained {cap : Nat} {st st' : St τ μ} (ms : List μ) (hi : Inv st) (hs : step cap st (.setRetained ms) = some st') : Inv st' := by
+theorem inv_setRetained {cap : Nat} {st st' : St τ μ} (ms : List μ) (hi : Inv st) (hs : step true cap st (.setRetained ms) = some st') : Inv st' := by
   simp only [step, Option.some.injEq] at hs
   subst hs
-  exact ⟨hi.qdec, hi.sidle, hi.openal, hi.closedc, fun ss h1 h2 => by
-    have a := hi.al ss h1 h2
-    exact ⟨a.pref, a.m, a.seenlt, a.front, a.nextr, a.up, a.down, a.subs, a.topics⟩⟩
+  exact ⟨hi.qdec, hi.floorq, hi.downasc, hi.topics, hi.sidle, hi.unsynced, hi.openal, hi.closedc, fun ss h1 h2 => by
+    have hal := hi.al ss h1 h2
+    exact ⟨fun hf => by
+      have a := hal.1 hf
+      exact ⟨a.pref, a.m, a.seenlt, a.nextr, a.up, a.down, a.subs⟩, fun hf => by
+      have s := hal.2 hf
+      exact ⟨s.next0, s.seen0, s.app0, s.subs0, s.closed⟩⟩⟩
 
-theorem inv_brk {cap : Nat} {st st' : St τ μ} (hi : Inv st) (hs : step cap st .brk = some st') : Inv st' := by
+theorem inv_brk {cap : Nat} {st st' : St τ μ} (hi : Inv st) (hs : step true cap st .brk = some st') : Inv st' := by
   simp only [step, Option.some.injEq] at hs
   subst hs
-  refine ⟨qdec_close hi.qdec, hi.sidle, ?_, ?_, ?_⟩
+  refine ⟨qdec_close hi.qdec, hi.floorq, by simp [Chan.broken], hi.topics, hi.sidle, hi.unsynced, ?_, ?_, ?_⟩
   · intro ho; simp [Chan.broken] at ho
   · intro _; simp [Chan.broken]
   · intro ss hss hid
-    have a := hi.al ss hss hid
-    refine ⟨a.pref, a.m, a.seenlt, a.front, a.nextr, ?_, ?_, a.subs, a.topics⟩
-    · intro ho; simp [Chan.broken] at ho
-    · intro i hi'; simp [Chan.broken] at hi'
+    have hal := hi.al ss hss hid
+    refine ⟨fun hf => ?_, fun hf => ?_⟩
+    · have a := hal.1 hf
+      refine ⟨a.pref, a.m, a.seenlt, a.nextr, ?_, ?_, a.subs⟩
+      · intro ho; simp [Chan.broken] at ho
+      · intro i hi'; simp [Chan.broken] at hi'
+    · have s := hal.2 hf
+      exact ⟨s.next0, s.seen0, s.app0, s.subs0, rfl⟩
 
-theorem inv_peerRestart {cap : Nat} {st st' : St τ μ} (hi : Inv st) (hs : step cap st .peerRestart = some st') : Inv st' := by
+theorem inv_peerRestart {cap : Nat} {st st' : St τ μ} (hi : Inv st) (hs : step true cap st .peerRestart = some st') : Inv st' := by
   simp only [step, Option.some.injEq] at hs
   subst hs
-  refine ⟨qdec_close hi.qdec, ?_, ?_, ?_, ?_⟩
+  refine ⟨qdec_close hi.qdec, hi.floorq, by simp [Chan.broken], hi.topics, ?_, ?_, ?_, ?_, ?_⟩
   · intro ss h; simp at h
+  · intro _ ss h; simp at h
   · intro ho; simp [Chan.broken] at ho
   · intro _; simp [Chan.broken]
   · intro ss h; simp at h
 
 theorem inv_senderRestart {cap : Nat} {st st' : St τ μ} (ts : List τ) (ms : List μ) (hi : Inv st)
-    (hs : step cap st (.senderRestart ts ms) = some st') : Inv st' := by
+    (hs : step true cap st (.senderRestart ts ms) = some st') : Inv st' := by
   simp only [step, Option.some.injEq] at hs
   subst hs
-  refine ⟨qdec_empty, ?_, ?_, ?_, ?_⟩
+  refine ⟨qdec_empty, by simp [EQ.empty], by simp [Chan.broken], by simp, ?_, ?_, ?_, ?_, ?_⟩
   · intro ss h
     have := hi.sidle ss h
     show ss.id ≤ st.s.sid + 1
+    omega
+  · intro _ ss h
+    have := hi.sidle ss h
+    show ss.id < st.s.sid + 1
     omega
   · intro ho; simp [Chan.broken] at ho
   · intro _; simp [Chan.broken]
@@ -212,7 +259,7 @@ theorem inv_senderRestart {cap : Nat} {st st' : St τ μ} (ts : List τ) (ms : L
     have hid' : ss.id = st.s.sid + 1 := hid
     omega
 
-theorem inv_deliverAck {cap : Nat} {st st' : St τ μ} (hi : Inv st) (hs : step cap st .deliverAck = some st') : Inv st' := by
+theorem inv_deliverAck {cap : Nat} {st st' : St τ μ} (hi : Inv st) (hs : step true cap st .deliverAck = some st') : Inv st' := by
   simp only [step] at hs
   by_cases ho : st.c.isOpen = true
   · rw [if_pos ho] at hs
@@ -221,34 +268,38 @@ theorem inv_deliverAck {cap : Nat} {st st' : St τ μ} (hi : Inv st) (hs : step 
     | cons id down' =>
       simp only [hd, Option.some.injEq] at hs
       subst hs
-      obtain ⟨⟨ss, hss, hid⟩, hcl⟩ := hi.openal ho
-      have a := hi.al ss hss hid
+      obtain ⟨hcl, ss, hss, hid, hfl⟩ := hi.openal ho
+      have a := (hi.al ss hss hid).1 hfl
       have hlt : id < ss.next := a.down id (by simp [hd])
+      have hge : st.s.ackFloor ≤ id := hi.downasc.2 id (by simp [hd])
       have hq := qdec_ack hi.qdec id (by have := a.nextr; omega)
-      refine ⟨hq.1, hi.sidle, ?_, ?_, ?_⟩
+      have hpw := hi.downasc.1
+      rw [hd, List.pairwise_cons] at hpw
+      refine ⟨hq.1, ?_, ?_, hi.topics, hi.sidle, hi.unsynced, ?_, ?_, ?_⟩
+      · exact hq.2.2.2 (id + 1) (by have := hi.floorq; omega) (Nat.le_refl _)
+      · refine ⟨hpw.2, ?_⟩
+        intro i hi'
+        have := hpw.1 i hi'
+        show id + 1 ≤ i
+        omega
       · intro _
-        exact ⟨⟨ss, hss, hid⟩, by simpa [hq.2.2.1] using hcl⟩
+        exact ⟨by simpa [hq.2.2.1] using hcl, ss, hss, hid, by show id + 1 ≤ ss.next; omega⟩
       · intro hc; simp [ho] at hc
       · intro ss' hss' hid'
-        have e : ss' = ss := by
-          have : some ss' = some ss := hss'.symm.trans hss
-          exact Option.some.inj this
+        have e := sess_unique hss hss'
         subst e
-        refine ⟨a.pref, a.m, a.seenlt, ?_, ?_, ?_, ?_, a.subs, a.topics⟩
-        · exact hq.2.2.2 ss'.next a.front (by omega)
+        refine ⟨fun _ => ⟨a.pref, a.m, a.seenlt, ?_, ?_, ?_, a.subs⟩, fun hf => ?_⟩
         · simpa [hq.2.1] using a.nextr
         · intro ho'
           obtain ⟨hpre, ul, h1, h2, h3⟩ := a.up ho
           exact ⟨hpre, ul, h1, h2, by simpa [hq.2.1] using h3⟩
         · intro i hi'
           exact a.down i (by simp [hd]; exact Or.inr hi')
+        · have hf' : ss'.next < id + 1 := hf
+          omega
   · simp [ho] at hs
 
-omit [DecidableEq τ] in
-theorem sess_unique {st : St τ μ} {ss ss' : Sess} (h : st.r.sess = some ss) (h' : st.r.sess = some ss') : ss' = ss :=
-  Option.some.inj (h'.symm.trans h)
-
-theorem inv_fetchSend {cap : Nat} {st st' : St τ μ} (hi : Inv st) (hs : step cap st .fetchSend = some st') : Inv st' := by
+theorem inv_fetchSend {cap : Nat} {st st' : St τ μ} (hi : Inv st) (hs : step true cap st .fetchSend = some st') : Inv st' := by
   simp only [step] at hs
   by_cases ho : st.c.isOpen = true
   · rw [if_pos ho] at hs
@@ -260,19 +311,19 @@ theorem inv_fetchSend {cap : Nat} {st st' : St τ μ} (hi : Inv st) (hs : step c
       | ok evs =>
         simp only [hf, Option.some.injEq] at hs
         subst hs
-        obtain ⟨⟨ss, hss, hid⟩, hcl⟩ := hi.openal ho
-        have a := hi.al ss hss hid
+        obtain ⟨hcl, ss, hss, hid, hfl⟩ := hi.openal ho
+        have a := (hi.al ss hss hid).1 hfl
         obtain ⟨hq, hevs, hrest, hdone, hne, hclosed⟩ := qdec_fetch hi.qdec hf
-        refine ⟨hq, hi.sidle, ?_, ?_, ?_⟩
-        · intro _; exact ⟨⟨ss, hss, hid⟩, by simpa [hclosed] using hcl⟩
+        refine ⟨hq, ?_, hi.downasc, hi.topics, hi.sidle, hi.unsynced, ?_, ?_, ?_⟩
+        · have := hi.floorq
+          simp only [hdone, hrest, hevs, List.length_append, List.length_take, List.length_drop]
+          omega
+        · intro _; exact ⟨by simpa [hclosed] using hcl, ss, hss, hid, hfl⟩
         · intro hc; simp [ho] at hc
         · intro ss' hss' hid'
           have e := sess_unique hss hss'
           subst e
-          refine ⟨a.pref, a.m, a.seenlt, ?_, ?_, ?_, a.down, a.subs, a.topics⟩
-          · have := a.front
-            simp only [hdone, hrest, hevs, List.length_append, List.length_take, List.length_drop]
-            omega
+          refine ⟨fun _ => ⟨a.pref, a.m, a.seenlt, ?_, ?_, a.down, a.subs⟩, fun hf' => ?_⟩
           · have := a.nextr
             simp only [hrest, List.length_drop]
             omega
@@ -293,6 +344,8 @@ theorem inv_fetchSend {cap : Nat} {st st' : St τ μ} (hi : Inv st) (hs : step c
               simp only [tagged_map_body]
               rw [h3, hrl]
               simp
+          · have hf'' : ss'.next < st.s.ackFloor := hf'
+            omega
   · simp [ho] at hs
 
 @[simp] theorem applyR_subs (r : Receiver τ μ) (b : PBody τ μ) : (applyR r b).subs = applyView r.subs b := by
@@ -326,7 +379,7 @@ theorem up_head {st : St τ μ} {ss : Sess} (a : AInv st ss) (ho : st.c.isOpen =
     simp at h1
     exact ⟨hpre, b, ul', h1.1, h1.2, h2, by rw [h3]; simp⟩
 
-theorem inv_deliver {cap : Nat} {st st' : St τ μ} (ok : Bool) (hi : Inv st) (hs : step cap st (.deliver ok) = some st') : Inv st' := by
+theorem inv_deliver {cap : Nat} {st st' : St τ μ} (ok : Bool) (hi : Inv st) (hs : step true cap st (.deliver ok) = some st') : Inv st' := by
   simp only [step] at hs
   by_cases ho : st.c.isOpen = true
   · rw [if_pos ho] at hs
@@ -336,14 +389,15 @@ theorem inv_deliver {cap : Nat} {st st' : St τ μ} (ok : Bool) (hi : Inv st) (h
       cases hse : st.r.sess with
       | none => simp [hu, hse] at hs
       | some ss =>
-        obtain ⟨⟨ss0, hss0, hid⟩, hcl⟩ := hi.openal ho
+        obtain ⟨hcl, ss0, hss0, hid, hfl⟩ := hi.openal ho
         have e0 := sess_unique hse hss0
         subst e0
-        have a := hi.al ss0 hse hid
+        have a := (hi.al ss0 hse hid).1 hfl
         obtain ⟨hpre, b, ul', he, hup', hlen, hh⟩ := up_head a ho hu
         subst he
         have hhl : st.s.hist.length = ss0.next + 1 + ul'.length + st.s.q.rest.length := by
           rw [hh]; simp; omega
+        have hdn : ∀ i ∈ st.c.down, i < ss0.next := a.down
         simp only [hu, hse] at hs
         rcases see_cases ss0 ss0.next with ⟨hmem, hsee⟩ | ⟨hnm, kept, hk, hsee⟩
         · -- duplicate: acknowledged, not applied
@@ -357,18 +411,23 @@ theorem inv_deliver {cap : Nat} {st st' : St τ μ} (ok : Bool) (hi : Inv st) (h
           | true =>
             simp only [if_true, Option.some.injEq] at hs
             subst hs
-            refine ⟨hi.qdec, ?_, ?_, ?_, ?_⟩
-            · intro ss' h
-              simp at h; subst h
-              exact hi.sidle ss0 hse
+            refine ⟨hi.qdec, hi.floorq, ?_, hi.topics, ?_, ?_, ?_, ?_, ?_⟩
+            · refine ⟨List.pairwise_append.mpr ⟨hi.downasc.1, by simp, ?_⟩, ?_⟩
+              · intro x hx y hy; simp at hy; subst hy; exact hdn x hx
+              · intro i hi'
+                simp at hi'
+                rcases hi' with h | h
+                · exact hi.downasc.2 i h
+                · subst h; exact hfl
+            · intro ss' h; simp at h; subst h; exact hi.sidle ss0 hse
+            · intro hsy ss' h; simp at h; subst h; exact hi.unsynced hsy ss0 hse
             · intro _
-              exact ⟨⟨ss0.acked ss0.next, rfl, hid⟩, hcl⟩
+              exact ⟨hcl, ss0.acked ss0.next, rfl, hid, by simp [Sess.acked]; omega⟩
             · intro hc; simp [ho] at hc
             · intro ss' h hid'
               simp at h; subst h
-              refine ⟨a.pref, Or.inl ?_, a.seenlt, ?_, ?_, ?_, ?_, a.subs, a.topics⟩
+              refine ⟨fun _ => ⟨a.pref, Or.inl ?_, a.seenlt, ?_, ?_, ?_, a.subs⟩, fun hf => ?_⟩
               · simp [Sess.acked, hm]
-              · have := a.front; simp [Sess.acked]; omega
               · simp [Sess.acked]; omega
               · intro _
                 refine ⟨hpre ++ [b], ul', ?_, ?_, ?_⟩
@@ -379,22 +438,25 @@ theorem inv_deliver {cap : Nat} {st st' : St τ μ} (ok : Bool) (hi : Inv st) (h
                 simp at hi'
                 simp [Sess.acked]
                 rcases hi' with h | h
-                · have := a.down i h; omega
+                · have := hdn i h; omega
                 · omega
+              · have hf' : ss0.next + 1 < st.s.ackFloor := hf
+                omega
           | false =>
             simp only [Bool.false_eq_true, if_false, Option.some.injEq] at hs
             subst hs
-            refine ⟨qdec_close hi.qdec, ?_, ?_, ?_, ?_⟩
-            · intro ss' h
-              simp at h; subst h
-              exact hi.sidle ss0 hse
+            refine ⟨qdec_close hi.qdec, hi.floorq, by simp [Chan.broken], hi.topics, ?_, ?_, ?_, ?_, ?_⟩
+            · intro ss' h; simp at h; subst h; exact hi.sidle ss0 hse
+            · intro hsy ss' h; simp at h; subst h; exact hi.unsynced hsy ss0 hse
             · intro hc; simp [Chan.broken] at hc
             · intro _; simp [Chan.broken]
             · intro ss' h hid'
               simp at h; subst h
-              refine ⟨a.pref, a.m, a.seenlt, a.front, a.nextr, ?_, ?_, a.subs, a.topics⟩
+              refine ⟨fun _ => ⟨a.pref, a.m, a.seenlt, a.nextr, ?_, ?_, a.subs⟩, fun hf => ?_⟩
               · intro hc; simp [Chan.broken] at hc
               · intro i hi'; simp [Chan.broken] at hi'
+              · have hf' : ss0.next < st.s.ackFloor := hf
+                omega
         · -- new event: applied once
           have hm : st.r.applied.length = ss0.next := by
             rcases a.m with h | h
@@ -406,17 +468,24 @@ theorem inv_deliver {cap : Nat} {st st' : St τ μ} (ok : Bool) (hi : Inv st) (h
           | true =>
             simp only [if_true, Option.some.injEq] at hs
             subst hs
-            refine ⟨hi.qdec, ?_, ?_, ?_, ?_⟩
-            · intro ss' h
-              simp at h; subst h
-              exact hi.sidle ss0 hse
+            refine ⟨hi.qdec, hi.floorq, ?_, hi.topics, ?_, ?_, ?_, ?_, ?_⟩
+            · refine ⟨List.pairwise_append.mpr ⟨hi.downasc.1, by simp, ?_⟩, ?_⟩
+              · intro x hx y hy; simp at hy; subst hy; exact hdn x hx
+              · intro i hi'
+                simp at hi'
+                rcases hi' with h | h
+                · exact hi.downasc.2 i h
+                · subst h; exact hfl
+            · intro ss' h; simp at h; subst h; exact hi.sidle ss0 hse
+            · intro hsy ss' h; simp at h; subst h; exact hi.unsynced hsy ss0 hse
             · intro _
-              refine ⟨⟨_, rfl, ?_⟩, hcl⟩
-              exact hid
+              refine ⟨hcl, _, rfl, ?_, ?_⟩
+              · exact hid
+              · simp [Sess.acked]; omega
             · intro hc; simp [ho] at hc
             · intro ss' h hid'
               simp at h; subst h
-              refine ⟨?_, Or.inl ?_, ?_, ?_, ?_, ?_, ?_, ?_, a.topics⟩
+              refine ⟨fun _ => ⟨?_, Or.inl ?_, ?_, ?_, ?_, ?_, ?_⟩, fun hf => ?_⟩
               · simpa using hpref
               · simp [Sess.acked, hm]
               · intro i hi'
@@ -425,7 +494,6 @@ theorem inv_deliver {cap : Nat} {st st' : St τ μ} (ok : Bool) (hi : Inv st) (h
                 rcases hi' with h | h
                 · have := a.seenlt i (hk i h); omega
                 · omega
-              · have := a.front; simp [Sess.acked]; omega
               · simp [Sess.acked]; omega
               · intro _
                 refine ⟨hpre ++ [b], ul', ?_, ?_, ?_⟩
@@ -436,21 +504,22 @@ theorem inv_deliver {cap : Nat} {st st' : St τ μ} (ok : Bool) (hi : Inv st) (h
                 simp at hi'
                 simp [Sess.acked]
                 rcases hi' with h | h
-                · have := a.down i h; omega
+                · have := hdn i h; omega
                 · omega
               · simp [view_append, a.subs]
+              · have hf' : ss0.next + 1 < st.s.ackFloor := hf
+                omega
           | false =>
             simp only [Bool.false_eq_true, if_false, Option.some.injEq] at hs
             subst hs
-            refine ⟨qdec_close hi.qdec, ?_, ?_, ?_, ?_⟩
-            · intro ss' h
-              simp at h; subst h
-              exact hi.sidle ss0 hse
+            refine ⟨qdec_close hi.qdec, hi.floorq, by simp [Chan.broken], hi.topics, ?_, ?_, ?_, ?_, ?_⟩
+            · intro ss' h; simp at h; subst h; exact hi.sidle ss0 hse
+            · intro hsy ss' h; simp at h; subst h; exact hi.unsynced hsy ss0 hse
             · intro hc; simp [Chan.broken] at hc
             · intro _; simp [Chan.broken]
             · intro ss' h hid'
               simp at h; subst h
-              refine ⟨?_, Or.inr ⟨?_, ?_⟩, ?_, a.front, a.nextr, ?_, ?_, ?_, a.topics⟩
+              refine ⟨fun _ => ⟨?_, Or.inr ⟨?_, ?_⟩, ?_, a.nextr, ?_, ?_, ?_⟩, fun hf => ?_⟩
               · simpa using hpref
               · simp [hm]
               · simp
@@ -463,6 +532,8 @@ theorem inv_deliver {cap : Nat} {st st' : St τ μ} (ok : Bool) (hi : Inv st) (h
               · intro hc; simp [Chan.broken] at hc
               · intro i hi'; simp [Chan.broken] at hi'
               · simp [view_append, a.subs]
+              · have hf' : ss0.next < st.s.ackFloor := hf
+                omega
   · simp [ho] at hs
 
 omit [DecidableEq τ] in
@@ -492,11 +563,12 @@ theorem setpos_zero_front {q : EQ (PBody τ μ)} {bs : List (PBody τ μ)} (hq :
     simp_all
 
 omit [DecidableEq τ] in
-/-- the queue after a clean start: cleared, one event per local topic and retained message, cursor at the front -/
+/-- the sender after a clean start: queue cleared, one event per local topic and retained message, cursor at the front,
+    `synced`, `ackFloor = 0` -/
 theorem helloS_clean (s : Sender τ μ) :
     let s' := helloS s true 0
     s'.hist = syncBodies s.topics s.retained ∧ QDec s'.q s'.hist ∧ s'.q.done = [] ∧
-    s'.q.rest = tagged 0 s'.hist ∧ s'.sid = s.sid ∧ s'.topics = s.topics := by
+    s'.q.rest = tagged 0 s'.hist ∧ s'.sid = s.sid ∧ s'.topics = s.topics ∧ s'.synced = true ∧ s'.ackFloor = 0 := by
   intro s'
   have h0 : QDec (addAll s.q.clear (syncBodies s.topics s.retained)) ([] ++ syncBodies s.topics s.retained) ∧ _ :=
     qdec_addAll (q := s.q.clear) (hist := []) qdec_empty (syncBodies s.topics s.retained)
@@ -506,121 +578,232 @@ theorem helloS_clean (s : Sender τ μ) :
   have hrest' : (addAll s.q.clear (syncBodies s.topics s.retained)).rest = tagged 0 (syncBodies s.topics s.retained) := by
     rw [hrest]; simp [EQ.clear, EQ.empty]
   have hq' := setpos_zero_front hq hdone' hrest'
-  have e : s' = { s with q := addAll s.q.clear (syncBodies s.topics s.retained), hist := syncBodies s.topics s.retained } := by
+  have e : s' = { s with q := addAll s.q.clear (syncBodies s.topics s.retained), hist := syncBodies s.topics s.retained,
+                         synced := true, ackFloor := 0 } := by
     show helloS s true 0 = _
     simp only [helloS, if_true, hq']
   rw [e]
-  exact ⟨rfl, hq, hdone', hrest', rfl, rfl⟩
+  exact ⟨rfl, hq, hdone', hrest', rfl, rfl, rfl, rfl⟩
 
-theorem inv_hello {cap : Nat} {st : St τ μ} (hi : Inv st) (o : Bool) :
-    Inv ({ s := { helloS st.s (helloR cap st.r st.s.sid).2.1 (helloR cap st.r st.s.sid).2.2 with
-                  q := if o then (helloS st.s (helloR cap st.r st.s.sid).2.1 (helloR cap st.r st.s.sid).2.2).q.open
-                       else (helloS st.s (helloR cap st.r st.s.sid).2.1 (helloR cap st.r st.s.sid).2.2).q }
-           r := (helloR cap st.r st.s.sid).1
-           c := { up := [], down := [], isOpen := o } } : St τ μ) := by
-  rcases helloR_cases cap st.r st.s.sid with ⟨ss, hss, hid, hr⟩ | ⟨hne, hr⟩
-  · -- same session: resume at nextEventID
-    rw [hr]
-    have a := hi.al ss hss hid
-    have hS : helloS st.s false ss.next = { st.s with q := st.s.q.setReadPosition ss.next } := by
-      simp [helloS]
-    simp only [hS]
-    -- facts about the repositioned queue
-    have hq : QDec (st.s.q.setReadPosition ss.next) st.s.hist ∧
-        (st.s.q.setReadPosition ss.next).rest.length = st.s.hist.length - ss.next ∧
-        (st.s.q.setReadPosition ss.next).done.length + (st.s.q.setReadPosition ss.next).rest.length
-          = st.s.q.done.length + st.s.q.rest.length := by
-      by_cases hk : ss.next < st.s.hist.length
-      · have := qdec_setpos_mid hi.qdec ss.next a.front hk
-        exact ⟨this.1, this.2.1, this.2.2.1⟩
-      · have hn : ss.next = st.s.hist.length := by have := a.nextr; omega
-        have := qdec_setpos_end hi.qdec
-        rw [hn, this]
-        refine ⟨hi.qdec, ?_, rfl⟩
-        have := a.nextr; omega
-    obtain ⟨hq1, hq2, hq3⟩ := hq
-    have hqo : ∀ q' : EQ (PBody τ μ), (q' = (st.s.q.setReadPosition ss.next).open ∨ q' = st.s.q.setReadPosition ss.next) →
-        QDec q' st.s.hist ∧ q'.rest = (st.s.q.setReadPosition ss.next).rest ∧ q'.done = (st.s.q.setReadPosition ss.next).done := by
-      rintro q' (h | h) <;> subst h <;> exact ⟨hq1, rfl, rfl⟩
-    have hsel := hqo (if o then (st.s.q.setReadPosition ss.next).open else st.s.q.setReadPosition ss.next)
-      (by cases o <;> simp)
-    refine ⟨hsel.1, hi.sidle, ?_, ?_, ?_⟩
-    · intro ho
-      simp at ho; subst ho
-      exact ⟨⟨ss, hss, hid⟩, rfl⟩
-    · intro _; exact ⟨rfl, rfl⟩
-    · intro ss' hss' hid'
-      have e := sess_unique hss hss'
-      subst e
-      refine ⟨a.pref, a.m, a.seenlt, ?_, ?_, ?_, ?_, a.subs, a.topics⟩
-      · have := a.front
-        show st.s.hist.length ≤ _
-        rw [hsel.2.1, hsel.2.2]; omega
-      · show ss'.next + _ ≤ st.s.hist.length
-        rw [hsel.2.1, hq2]
-        have := a.nextr; omega
-      · intro _
-        obtain ⟨_, _, pre, dl, rl, hh, hd, hrr⟩ := hq1
-        refine ⟨pre ++ dl, [], rfl, ?_, ?_⟩
-        · have e1 : st.s.hist.length = pre.length + dl.length + rl.length := by simp [hh, Nat.add_assoc]
-          have e2 : rl.length = st.s.hist.length - ss'.next := by rw [← hq2, hrr]; simp
-          have := a.nextr
-          simp; omega
-        · show st.s.hist = _
-          rw [hsel.2.1, hrr]; simp [hh]
-      · intro i hi'; simp at hi'
-  · -- clean start: full resynchronisation
-    rw [hr]
-    obtain ⟨hh, hq, hdone, hrest, hsid, htop⟩ := helloS_clean st.s
-    generalize helloS st.s true 0 = s' at hh hq hdone hrest hsid htop
-    have hqo : ∀ q' : EQ (PBody τ μ), (q' = s'.q.open ∨ q' = s'.q) →
-        QDec q' s'.hist ∧ q'.rest = s'.q.rest ∧ q'.done = s'.q.done := by
-      rintro q' (h | h) <;> subst h <;> exact ⟨hq, rfl, rfl⟩
-    have hsel := hqo (if o then s'.q.open else s'.q) (by cases o <;> simp)
-    refine ⟨hsel.1, ?_, ?_, ?_, ?_⟩
-    · intro ss h; simp at h; subst h; simp [hsid]
-    · intro ho
-      simp at ho; subst ho
-      exact ⟨⟨_, rfl, hsid.symm⟩, rfl⟩
-    · intro _; exact ⟨rfl, rfl⟩
-    · intro ss h _
-      simp at h; subst h
-      refine ⟨?_, Or.inl rfl, ?_, ?_, ?_, ?_, ?_, rfl, ?_⟩
-      · exact List.nil_prefix
-      · intro i hi'; simp at hi'
-      · show s'.hist.length ≤ 0 + _ + _
-        rw [hsel.2.1, hsel.2.2, hdone, hrest]; simp
-      · show 0 + _ ≤ s'.hist.length
-        rw [hsel.2.1, hrest]; simp
-      · intro _
-        refine ⟨[], [], rfl, rfl, ?_⟩
-        show s'.hist = _
-        rw [hsel.2.1, hrest]; simp
-      · intro i hi'; simp at hi'
-      · intro t
-        show t ∈ view s'.hist ↔ t ∈ s'.topics
-        rw [hh, htop]
-        exact view_syncBodies _ _ t
+/-- after S has done a clean start against an EMPTY session of R carrying S's id, the invariant holds (stream up or not) -/
+theorem inv_after_clean {st : St τ μ} (r' : Receiver τ μ) (ss : Sess) (o : Bool)
+    (hr : r'.sess = some ss) (hid : ss.id = st.s.sid) (hn : ss.next = 0) (hseen : ss.seen.items = [])
+    (happ : r'.applied = []) (hsubs : r'.subs = []) :
+    Inv ({ s := { helloS st.s true 0 with q := if o then (helloS st.s true 0).q.open else (helloS st.s true 0).q }
+           r := r', c := { up := [], down := [], isOpen := o } } : St τ μ) := by
+  obtain ⟨hh, hq, hdone, hrest, hsid, htop, hsy, haf⟩ := helloS_clean st.s
+  generalize helloS st.s true 0 = s' at hh hq hdone hrest hsid htop hsy haf
+  have hqo : ∀ q' : EQ (PBody τ μ), (q' = s'.q.open ∨ q' = s'.q) →
+      QDec q' s'.hist ∧ q'.rest = s'.q.rest ∧ q'.done = s'.q.done ∧ (q' = s'.q.open → q'.closed = false) := by
+    rintro q' (h | h) <;> subst h
+    · exact ⟨hq, rfl, rfl, fun _ => rfl⟩
+    · exact ⟨hq, rfl, rfl, fun e => by rw [e]; rfl⟩
+  have hsel := hqo (if o then s'.q.open else s'.q) (by cases o <;> simp)
+  have hss : ∀ ss', r'.sess = some ss' → ss' = ss := fun ss' h => Option.some.inj (h.symm.trans hr)
+  refine ⟨hsel.1, ?_, by simp, ?_, ?_, ?_, ?_, ?_, ?_⟩
+  · show s'.hist.length ≤ s'.ackFloor + _ + _
+    rw [hsel.2.1, hsel.2.2.1, hdone, hrest, haf]; simp
+  · intro _ t
+    show t ∈ view s'.hist ↔ t ∈ s'.topics
+    rw [hh, htop]
+    exact view_syncBodies _ _ t
+  · intro ss' h; rw [hss ss' h]; show ss.id ≤ s'.sid; omega
+  · intro hns; exact absurd hsy (by show ¬ s'.synced = true; rw [hns]; simp)
+  · intro ho
+    simp at ho; subst ho
+    exact ⟨rfl, ss, hr, by show ss.id = s'.sid; omega, by show s'.ackFloor ≤ ss.next; omega⟩
+  · intro _; exact ⟨rfl, rfl⟩
+  · intro ss' h _
+    rw [hss ss' h]
+    refine ⟨fun _ => ⟨?_, Or.inl ?_, ?_, ?_, ?_, ?_, ?_⟩, fun hf => ?_⟩
+    · show r'.applied <+: s'.hist
+      rw [happ]; exact List.nil_prefix
+    · show r'.applied.length = ss.next
+      rw [happ, hn]; rfl
+    · intro i hi'; rw [hseen] at hi'; simp at hi'
+    · show ss.next + _ ≤ s'.hist.length
+      rw [hsel.2.1, hrest, hn]; simp
+    · intro _
+      refine ⟨[], [], by rw [hn]; rfl, by rw [hn]; rfl, ?_⟩
+      show s'.hist = _
+      rw [hsel.2.1, hrest]; simp
+    · intro i hi'; simp at hi'
+    · show r'.subs = view r'.applied
+      rw [hsubs, happ]; rfl
+    · have : ss.next < s'.ackFloor := hf
+      omega
 
-theorem inv_reconnect {cap : Nat} {st st' : St τ μ} (o : Bool) (hi : Inv st) (hs : step cap st (.reconnect o) = some st') : Inv st' := by
+/-- resuming an intact session at `nextEventID` -/
+theorem inv_resume {st : St τ μ} (hi : Inv st) (ss : Sess) (o : Bool) (hss : st.r.sess = some ss) (hid : ss.id = st.s.sid)
+    (hfl : st.s.ackFloor ≤ ss.next) :
+    Inv ({ s := { st.s with q := if o then (st.s.q.setReadPosition ss.next).open else st.s.q.setReadPosition ss.next }
+           r := st.r, c := { up := [], down := [], isOpen := o } } : St τ μ) := by
+  have a := (hi.al ss hss hid).1 hfl
+  have hfront : st.s.hist.length ≤ ss.next + st.s.q.done.length + st.s.q.rest.length := by
+    have := hi.floorq; omega
+  have hq : QDec (st.s.q.setReadPosition ss.next) st.s.hist ∧
+      (st.s.q.setReadPosition ss.next).rest.length = st.s.hist.length - ss.next ∧
+      (st.s.q.setReadPosition ss.next).done.length + (st.s.q.setReadPosition ss.next).rest.length
+        = st.s.q.done.length + st.s.q.rest.length := by
+    by_cases hk : ss.next < st.s.hist.length
+    · have := qdec_setpos_mid hi.qdec ss.next hfront hk
+      exact ⟨this.1, this.2.1, this.2.2.1⟩
+    · have hn : ss.next = st.s.hist.length := by have := a.nextr; omega
+      have := qdec_setpos_end hi.qdec
+      rw [hn, this]
+      refine ⟨hi.qdec, ?_, rfl⟩
+      have := a.nextr; omega
+  obtain ⟨hq1, hq2, hq3⟩ := hq
+  have hqo : ∀ q' : EQ (PBody τ μ), (q' = (st.s.q.setReadPosition ss.next).open ∨ q' = st.s.q.setReadPosition ss.next) →
+      QDec q' st.s.hist ∧ q'.rest = (st.s.q.setReadPosition ss.next).rest ∧ q'.done = (st.s.q.setReadPosition ss.next).done := by
+    rintro q' (h | h) <;> subst h <;> exact ⟨hq1, rfl, rfl⟩
+  have hsel := hqo (if o then (st.s.q.setReadPosition ss.next).open else st.s.q.setReadPosition ss.next)
+    (by cases o <;> simp)
+  refine ⟨hsel.1, ?_, by simp, hi.topics, hi.sidle, hi.unsynced, ?_, ?_, ?_⟩
+  · have := hi.floorq
+    show st.s.hist.length ≤ st.s.ackFloor + _ + _
+    rw [hsel.2.1, hsel.2.2]; omega
+  · intro ho
+    simp at ho; subst ho
+    exact ⟨rfl, ss, hss, hid, hfl⟩
+  · intro _; exact ⟨rfl, rfl⟩
+  · intro ss' hss' hid'
+    have e := sess_unique hss hss'
+    subst e
+    refine ⟨fun _ => ⟨a.pref, a.m, a.seenlt, ?_, ?_, ?_, a.subs⟩, fun hf => ?_⟩
+    · show ss'.next + _ ≤ st.s.hist.length
+      rw [hsel.2.1, hq2]
+      have := a.nextr; omega
+    · intro _
+      obtain ⟨_, _, pre, dl, rl, hh, hd, hrr⟩ := hq1
+      refine ⟨pre ++ dl, [], rfl, ?_, ?_⟩
+      · have e1 : st.s.hist.length = pre.length + dl.length + rl.length := by simp [hh, Nat.add_assoc]
+        have e2 : rl.length = st.s.hist.length - ss'.next := by rw [← hq2, hrr]; simp
+        have := a.nextr
+        simp; omega
+      · show st.s.hist = _
+        rw [hsel.2.1, hrr]; simp [hh]
+    · intro i hi'; simp at hi'
+    · have : ss'.next < st.s.ackFloor := hf
+      omega
+
+theorem inv_reconnect {cap : Nat} {st st' : St τ μ} (o : Bool) (hi : Inv st) (hs : step true cap st (.reconnect o) = some st') : Inv st' := by
   simp only [step] at hs
   by_cases ho : st.c.isOpen = true
   · simp [ho] at hs
   · have hc : st.c.isOpen = false := by simpa using ho
-    have := inv_hello (cap := cap) hi o
-    cases o with
-    | true =>
-      simp only [hc, Bool.false_eq_true, if_false, if_true, Option.some.injEq] at hs
-      subst hs
-      simpa using this
-    | false =>
-      simp only [hc, Bool.false_eq_true, if_false, Option.some.injEq] at hs
-      subst hs
-      simpa [Chan.broken] using this
+    simp only [hc, Bool.false_eq_true, if_false] at hs
+    rcases helloR_cases cap st.r st.s.sid with ⟨ss, hss, hid, hr⟩ | ⟨hne, hr⟩
+    · rw [hr] at hs
+      by_cases hfl : st.s.ackFloor ≤ ss.next
+      · -- resume
+        have hcd : cleanDecision true st.s false ss.next = false := by
+          simp [cleanDecision]; omega
+        simp only [hcd, Bool.false_eq_true, if_false] at hs
+        have hS : helloS st.s false ss.next = { st.s with q := st.s.q.setReadPosition ss.next } := by
+          simp [helloS]
+        rw [hS] at hs
+        have := inv_resume hi ss o hss hid hfl
+        cases o with
+        | true => simp only [if_true, Option.some.injEq] at hs; subst hs; simpa using this
+        | false =>
+          simp only [Bool.false_eq_true, if_false, Option.some.injEq] at hs; subst hs; simpa [Chan.broken] using this
+      · -- R's session was re-created behind S's back: S notices (next < ackFloor) and starts clean
+        have hlt : ss.next < st.s.ackFloor := by omega
+        have hcd : cleanDecision true st.s false ss.next = true := by
+          simp [cleanDecision]; omega
+        simp only [hcd, if_true] at hs
+        have stl := (hi.al ss hss hid).2 hlt
+        have := inv_after_clean (st := st) st.r ss o hss hid stl.next0 stl.seen0 stl.app0 stl.subs0
+        cases o with
+        | true => simp only [if_true, Option.some.injEq] at hs; subst hs; simpa using this
+        | false =>
+          simp only [Bool.false_eq_true, if_false, Option.some.injEq] at hs; subst hs; simpa [Chan.broken] using this
+    · rw [hr] at hs
+      have hcd : cleanDecision true st.s true 0 = true := by simp [cleanDecision]
+      simp only [hcd, if_true] at hs
+      have := inv_after_clean (st := st)
+        { st.r with sess := some { id := st.s.sid, next := 0, seen := { items := [], size := cap } }, subs := [], applied := [] }
+        { id := st.s.sid, next := 0, seen := { items := [], size := cap } } o rfl rfl rfl rfl rfl rfl
+      cases o with
+      | true => simp only [if_true, Option.some.injEq] at hs; subst hs; simpa using this
+      | false =>
+        simp only [Bool.false_eq_true, if_false, Option.some.injEq] at hs; subst hs; simpa [Chan.broken] using this
 
-/-- every environment step except a handshake whose response is lost preserves the invariant -/
-theorem step_inv {cap : Nat} {st st' : St τ μ} (l : Label τ μ) (hl : l.isHelloLost = false) (hi : Inv st)
-    (hs : step cap st l = some st') : Inv st' := by
+/-- a failed Hello on the client side: the session id is replaced unless a clean start was completed with it -/
+theorem inv_helloErr {st : St τ μ} (hi : Inv st) (hc : st.c.isOpen = false) :
+    Inv ({ st with s := helloErr true st.s } : St τ μ) := by
+  unfold helloErr
+  cases hsy : st.s.synced with
+  | true => simpa [hsy] using hi
+  | false =>
+    simp only [Bool.not_false, Bool.and_self, if_true]
+    refine ⟨hi.qdec, hi.floorq, hi.downasc, ?_, ?_, ?_, ?_, hi.closedc, ?_⟩
+    · intro h; simp at h
+    · intro ss h; have := hi.sidle ss h; show ss.id ≤ st.s.sid + 1; omega
+    · intro _ ss h; have := hi.sidle ss h; show ss.id < st.s.sid + 1; omega
+    · intro ho; simp [hc] at ho
+    · intro ss h hid
+      have := hi.sidle ss h
+      have : ss.id = st.s.sid + 1 := hid
+      omega
+
+theorem inv_helloFail {cap : Nat} {st st' : St τ μ} (hi : Inv st) (hs : step true cap st .helloFail = some st') : Inv st' := by
+  simp only [step] at hs
+  by_cases ho : st.c.isOpen = true
+  · simp [ho] at hs
+  · have hc : st.c.isOpen = false := by simpa using ho
+    simp only [hc, Bool.false_eq_true, if_false, Option.some.injEq] at hs
+    subst hs
+    exact inv_helloErr hi hc
+
+/-- the handshake whose answer is lost: R may have created a new, empty session -/
+theorem inv_helloLost {cap : Nat} {st st' : St τ μ} (hi : Inv st) (hs : step true cap st .helloLost = some st') : Inv st' := by
+  simp only [step] at hs
+  by_cases ho : st.c.isOpen = true
+  · simp [ho] at hs
+  · have hc : st.c.isOpen = false := by simpa using ho
+    simp only [hc, Bool.false_eq_true, if_false, Option.some.injEq] at hs
+    subst hs
+    rcases helloR_cases cap st.r st.s.sid with ⟨ss, hss, hid, hr⟩ | ⟨hne, hr⟩
+    · -- R knows the session: nothing changes on R
+      rw [hr]
+      have := inv_helloErr hi hc
+      simpa using this
+    · rw [hr]
+      have hcl := hi.closedc hc
+      cases hsy : st.s.synced with
+      | true =>
+        have he : helloErr true st.s = st.s := by simp [helloErr, hsy]
+        rw [he]
+        refine ⟨hi.qdec, hi.floorq, hi.downasc, hi.topics, ?_, ?_, ?_, hi.closedc, ?_⟩
+        · intro ss h; simp at h; subst h; exact Nat.le_refl _
+        · intro hns; rw [hsy] at hns; simp at hns
+        · intro ho'; simp [hc] at ho'
+        · intro ss h _
+          simp at h; subst h
+          refine ⟨fun _ => ⟨List.nil_prefix, Or.inl rfl, ?_, ?_, ?_, ?_, rfl⟩, fun _ => ⟨rfl, rfl, rfl, rfl, hc⟩⟩
+          · intro i hi'; simp at hi'
+          · show 0 + st.s.q.rest.length ≤ st.s.hist.length
+            have := qdec_rest_le hi.qdec; omega
+          · intro ho'; simp [hc] at ho'
+          · intro i hi'; rw [hcl.2] at hi'; simp at hi'
+      | false =>
+        have he : helloErr true st.s = { st.s with sid := st.s.sid + 1 } := by simp [helloErr, hsy]
+        rw [he]
+        refine ⟨hi.qdec, hi.floorq, hi.downasc, ?_, ?_, ?_, ?_, hi.closedc, ?_⟩
+        · intro h; have : st.s.synced = true := h; rw [hsy] at this; simp at this
+        · intro ss h; simp at h; subst h; show st.s.sid ≤ st.s.sid + 1; omega
+        · intro _ ss h; simp at h; subst h; show st.s.sid < st.s.sid + 1; omega
+        · intro ho'; simp [hc] at ho'
+        · intro ss h hid
+          simp at h; subst h
+          have : st.s.sid = st.s.sid + 1 := hid
+          omega
+
+/-- EVERY environment step of the fixed protocol preserves the invariant -/
+theorem step_inv {cap : Nat} {st st' : St τ μ} (l : Label τ μ) (hi : Inv st)
+    (hs : step true cap st l = some st') : Inv st' := by
   cases l with
   | emit b => exact inv_emit b hi hs
   | setRetained ms => exact inv_setRetained ms hi hs
@@ -629,39 +812,29 @@ theorem step_inv {cap : Nat} {st st' : St τ μ} (l : Label τ μ) (hl : l.isHel
   | deliverAck => exact inv_deliverAck hi hs
   | brk => exact inv_brk hi hs
   | reconnect o => exact inv_reconnect o hi hs
-  | helloLost => simp [Label.isHelloLost] at hl
+  | helloLost => exact inv_helloLost hi hs
+  | helloFail => exact inv_helloFail hi hs
   | peerRestart => exact inv_peerRestart hi hs
   | senderRestart ts ms => exact inv_senderRestart ts ms hi hs
 
-theorem run_inv {cap : Nat} (ls : List (Label τ μ)) {st st' : St τ μ} (hl : ∀ l ∈ ls, l.isHelloLost = false) (hi : Inv st)
-    (hr : run cap ls st = some st') : Inv st' := by
+theorem run_inv {cap : Nat} (ls : List (Label τ μ)) {st st' : St τ μ} (hi : Inv st)
+    (hr : run true cap ls st = some st') : Inv st' := by
   induction ls generalizing st with
   | nil => simp [run] at hr; subst hr; exact hi
   | cons l ls ih =>
     simp only [run] at hr
-    cases hs : step cap st l with
+    cases hs : step true cap st l with
     | none => simp [hs] at hr
     | some st1 =>
       simp only [hs] at hr
-      exact ih (fun l' h' => hl l' (List.mem_cons_of_mem _ h')) (step_inv l (hl l (List.mem_cons_self ..)) hi hs) hr
-
-omit [DecidableEq τ] in
-theorem run_append {cap : Nat} [DecidableEq τ] (l1 l2 : List (Label τ μ)) (st : St τ μ) :
-    run cap (l1 ++ l2) st = (run cap l1 st).bind (run cap l2) := by
-  induction l1 generalizing st with
-  | nil => simp [run]
-  | cons l ls ih =>
-    simp only [List.cons_append, run]
-    cases step cap st l with
-    | none => simp
-    | some st1 => simp [ih]
+      exact ih (step_inv l hi hs) hr
 
 /-- in a quiescent state R has applied everything S emitted in this epoch, and R's view of S's subscriptions is S's local set -/
 theorem inv_quiescent {st : St τ μ} (hi : Inv st) (hq : Quiescent st) :
-    Aligned st ∧ st.r.applied = st.s.hist ∧ (∀ t, t ∈ st.r.subs ↔ t ∈ st.s.topics) := by
+    InSession st ∧ st.r.applied = st.s.hist ∧ (∀ t, t ∈ st.r.subs ↔ t ∈ st.s.topics) := by
   obtain ⟨ho, hup, hrest, _⟩ := hq
-  obtain ⟨⟨ss, hss, hid⟩, _⟩ := hi.openal ho
-  have a := hi.al ss hss hid
+  obtain ⟨_, ss, hss, hid, hfl⟩ := hi.openal ho
+  have a := (hi.al ss hss hid).1 hfl
   obtain ⟨hpre, ul, h1, h2, h3⟩ := a.up ho
   rw [hup] at h1
   have hul : ul = [] := tagged_eq_nil h1.symm
@@ -675,19 +848,19 @@ theorem inv_quiescent {st : St τ μ} (hi : Inv st) (hq : Quiescent st) :
     · omega
     · omega
   have heq : st.r.applied = st.s.hist := a.pref.eq_of_length hm
-  refine ⟨⟨ss, hss, hid⟩, heq, ?_⟩
+  refine ⟨⟨ss, hss, hid, hfl⟩, heq, ?_⟩
   intro t
   rw [a.subs, heq]
-  exact a.topics t
+  exact hi.topics (hi.synced_of_aligned hss hid) t
 
 /-- at-least-once: an event of the current epoch that R has not applied yet is still in S's queue -/
-theorem inv_unapplied_queued {st : St τ μ} (hi : Inv st) (hal : Aligned st) (i : Nat) (b : PBody τ μ)
+theorem inv_unapplied_queued {st : St τ μ} (hi : Inv st) (hal : InSession st) (i : Nat) (b : PBody τ μ)
     (h1 : st.r.applied.length ≤ i) (h2 : st.s.hist[i]? = some b) :
     ({ id := i, body := b } : Event (PBody τ μ)) ∈ st.s.q.items := by
-  obtain ⟨ss, hss, hid⟩ := hal
-  have a := hi.al ss hss hid
+  obtain ⟨ss, hss, hid, hfl⟩ := hal
+  have a := (hi.al ss hss hid).1 hfl
   obtain ⟨_, _, pre, dl, rl, hh, hd, hr⟩ := hi.qdec
-  have hfront := a.front
+  have hfront := hi.floorq
   rw [hd, hr] at hfront
   simp at hfront
   have hlen : st.s.hist.length = pre.length + dl.length + rl.length := by simp [hh, Nat.add_assoc]
@@ -705,21 +878,17 @@ theorem inv_unapplied_queued {st : St τ μ} (hi : Inv st) (hal : Aligned st) (i
 
 /-! ### liveness: a stable connection drains -/
 
-omit [DecidableEq τ] in
-theorem isStable_not_helloLost (l : Label τ μ) (h : l.isStable = true) : l.isHelloLost = false := by
-  cases l <;> simp_all [Label.isStable, Label.isHelloLost]
-
 theorem step_deliver_true {cap : Nat} {st : St τ μ} {e : Event (PBody τ μ)} {up' : List (Event (PBody τ μ))} {ss : Sess}
     (ho : st.c.isOpen = true) (hu : st.c.up = e :: up') (hse : st.r.sess = some ss) :
-    ∃ st1, step cap st (.deliver true) = some st1 ∧ st1.c.isOpen = true ∧ st1.c.up = up' ∧ st1.s = st.s := by
+    ∃ st1, step true cap st (.deliver true) = some st1 ∧ st1.c.isOpen = true ∧ st1.c.up = up' ∧ st1.s = st.s := by
   simp only [step, ho, hu, hse, if_true]
   cases ss.see e.id with
   | mk s1 dup => exact ⟨_, rfl, rfl, rfl, rfl⟩
 
 theorem step_fetch_enabled {cap : Nat} {st : St τ μ} (hi : Inv st) (ho : st.c.isOpen = true) (hne : st.s.q.rest ≠ []) :
-    ∃ st1, step cap st .fetchSend = some st1 ∧ st1.c.isOpen = true ∧ st1.c.up = st.c.up ++ st.s.q.rest.take 100 ∧
-      st1.s.q.rest = st.s.q.rest.drop 100 := by
-  have hcl := (hi.openal ho).2
+    ∃ st1, step true cap st .fetchSend = some st1 ∧ st1.c.isOpen = true ∧ st1.c.up = st.c.up ++ st.s.q.rest.take 100 ∧
+      st1.s.q.rest = st.s.q.rest.drop 100 ∧ st1.s.topics = st.s.topics ∧ st1.s.sid = st.s.sid := by
+  have hcl := (hi.openal ho).1
   have hd := hi.qdec.1
   have hf : st.s.q.fetch = ({ st.s.q with done := st.s.q.done ++ st.s.q.rest.take 100, rest := st.s.q.rest.drop 100 },
       .ok (st.s.q.rest.take 100)) := by
@@ -733,20 +902,20 @@ theorem step_fetch_enabled {cap : Nat} {st : St τ μ} (hi : Inv st) (ho : st.c.
       | cons c cs => simp [EQ.nextReadNil, hr]
     simp [EQ.fetch, h1, h2, hcl, hd]
   simp only [step, ho, if_true, hf]
-  exact ⟨_, rfl, rfl, rfl, rfl⟩
+  exact ⟨_, rfl, rfl, rfl, rfl, rfl, rfl⟩
 
 theorem drain {cap : Nat} (n : Nat) : ∀ (st : St τ μ), Inv st → st.c.isOpen = true →
     2 * st.s.q.rest.length + st.c.up.length = n →
-    ∃ ls st', (∀ l ∈ ls, Label.isStable l = true) ∧ run cap ls st = some st' ∧ Quiescent st' ∧
+    ∃ ls st', (∀ l ∈ ls, Label.isStable l = true) ∧ run true cap ls st = some st' ∧ Quiescent st' ∧
       st'.s.topics = st.s.topics ∧ st'.s.sid = st.s.sid := by
   induction n using Nat.strongRecOn with
   | _ n ih =>
     intro st hi ho hn
     cases hu : st.c.up with
     | cons e up' =>
-      obtain ⟨⟨ss, hss, _⟩, _⟩ := hi.openal ho
+      obtain ⟨_, ss, hss, _, _⟩ := hi.openal ho
       obtain ⟨st1, hs, ho1, hu1, hs1⟩ := step_deliver_true (cap := cap) ho hu hss
-      have hi1 := step_inv _ (by rfl) hi hs
+      have hi1 := step_inv _ hi hs
       obtain ⟨ls, st', hst, hrun, hq, ht, hsd⟩ := ih (2 * st1.s.q.rest.length + st1.c.up.length)
         (by rw [hs1, hu1]; rw [hu] at hn; simp at hn; omega) st1 hi1 ho1 rfl
       refine ⟨.deliver true :: ls, st', ?_, ?_, hq, by rw [ht, hs1], by rw [hsd, hs1]⟩
@@ -759,23 +928,15 @@ theorem drain {cap : Nat} (n : Nat) : ∀ (st : St τ μ), Inv st → st.c.isOpe
     | nil =>
       by_cases hr : st.s.q.rest = []
       · exact ⟨[], st, by simp, rfl, ⟨ho, hu, hr, hi.qdec.1⟩, rfl, rfl⟩
-      · obtain ⟨st1, hs, ho1, hu1, hr1⟩ := step_fetch_enabled (cap := cap) hi ho hr
-        have hi1 := step_inv _ (by rfl) hi hs
+      · obtain ⟨st1, hs, ho1, hu1, hr1, ht1, hsd1⟩ := step_fetch_enabled (cap := cap) hi ho hr
+        have hi1 := step_inv _ hi hs
         have hpos : 0 < st.s.q.rest.length := List.length_pos_iff.mpr hr
         obtain ⟨ls, st', hst, hrun, hq, ht, hsd⟩ := ih (2 * st1.s.q.rest.length + st1.c.up.length)
           (by
             rw [hr1, hu1, hu] at *
             simp [List.length_take, List.length_drop] at *
             omega) st1 hi1 ho1 rfl
-        have hsame : st1.s.topics = st.s.topics ∧ st1.s.sid = st.s.sid := by
-          simp only [step, ho, if_true] at hs
-          cases hf : st.s.q.fetch with
-          | mk q' res =>
-            cases res with
-            | blocked => simp [hf] at hs
-            | closed => simp [hf] at hs
-            | ok evs => simp [hf] at hs; subst hs; exact ⟨rfl, rfl⟩
-        refine ⟨.fetchSend :: ls, st', ?_, ?_, hq, by rw [ht, hsame.1], by rw [hsd, hsame.2]⟩
+        refine ⟨.fetchSend :: ls, st', ?_, ?_, hq, by rw [ht, ht1], by rw [hsd, hsd1]⟩
         · intro l hl
           simp at hl
           rcases hl with h | h
@@ -785,14 +946,13 @@ theorem drain {cap : Nat} (n : Nat) : ∀ (st : St τ μ), Inv st → st.c.isOpe
 
 /-- from every state satisfying the invariant a stable connection (no break, acks get through) reaches quiescence -/
 theorem inv_reaches_quiescence {cap : Nat} {st : St τ μ} (hi : Inv st) :
-    ∃ ls st', (∀ l ∈ ls, Label.isStable l = true) ∧ run cap ls st = some st' ∧ Quiescent st' ∧ Inv st' ∧
+    ∃ ls st', (∀ l ∈ ls, Label.isStable l = true) ∧ run true cap ls st = some st' ∧ Quiescent st' ∧ Inv st' ∧
       st'.s.topics = st.s.topics ∧ st'.s.sid = st.s.sid := by
   by_cases ho : st.c.isOpen = true
   · obtain ⟨ls, st', h1, h2, h3, h4, h5⟩ := drain (cap := cap) _ st hi ho rfl
-    exact ⟨ls, st', h1, h2, h3, run_inv ls (fun l hl => isStable_not_helloLost l (h1 l hl)) hi h2, h4, h5⟩
+    exact ⟨ls, st', h1, h2, h3, run_inv ls hi h2, h4, h5⟩
   · have hc : st.c.isOpen = false := by simpa using ho
-    -- reconnect first
-    have hs : ∃ st1, step cap st (.reconnect true) = some st1 ∧ st1.c.isOpen = true ∧ st1.s.topics = st.s.topics ∧
+    have hs : ∃ st1, step true cap st (.reconnect true) = some st1 ∧ st1.c.isOpen = true ∧ st1.s.topics = st.s.topics ∧
         st1.s.sid = st.s.sid := by
       simp only [step, hc, Bool.false_eq_true, if_false, if_true]
       refine ⟨_, rfl, rfl, ?_, ?_⟩
@@ -801,7 +961,7 @@ theorem inv_reaches_quiescence {cap : Nat} {st : St τ μ} (hi : Inv st) :
       · simp only [helloS]
         split <;> rfl
     obtain ⟨st1, hs1, ho1, ht1, hsd1⟩ := hs
-    have hi1 := step_inv _ (by rfl) hi hs1
+    have hi1 := step_inv _ hi hs1
     obtain ⟨ls, st', h1, h2, h3, h4, h5⟩ := drain (cap := cap) _ st1 hi1 ho1 rfl
     have hall : ∀ l ∈ Label.reconnect true :: ls, Label.isStable l = true := by
       intro l hl
@@ -810,10 +970,12 @@ theorem inv_reaches_quiescence {cap : Nat} {st : St τ μ} (hi : Inv st) :
       · subst h; rfl
       · exact h1 l h
     refine ⟨.reconnect true :: ls, st', hall, by simp [run, hs1, h2], h3, ?_, by rw [h4, ht1], by rw [h5, hsd1]⟩
-    exact run_inv (cap := cap) _ (fun l hl => isStable_not_helloLost l (hall l hl)) hi (by simp [run, hs1, h2])
+    exact run_inv (cap := cap) (.reconnect true :: ls) hi (by simp [run, hs1, h2])
+
+/-! ### restarts -/
 
 omit [DecidableEq τ] in
-/-- when R's session does not belong to S's epoch, the next Hello is answered with clean_start -/
+/-- when R's session does not carry S's id, the next Hello is answered with clean_start -/
 theorem hello_clean_of_unaligned {cap : Nat} {st : St τ μ} (h : ¬ Aligned st) :
     (helloR cap st.r st.s.sid).2.1 = true ∧ (helloR cap st.r st.s.sid).2.2 = 0 := by
   rcases helloR_cases cap st.r st.s.sid with ⟨ss, hss, hid, _⟩ | ⟨_, hr⟩
@@ -821,7 +983,7 @@ theorem hello_clean_of_unaligned {cap : Nat} {st : St τ μ} (h : ¬ Aligned st)
   · rw [hr]; exact ⟨rfl, rfl⟩
 
 theorem unaligned_after_restart {cap : Nat} {st st1 : St τ μ} (hi : Inv st) (l : Label τ μ)
-    (hl : l = .peerRestart ∨ ∃ ts ms, l = .senderRestart ts ms) (hs : step cap st l = some st1) :
+    (hl : l = .peerRestart ∨ ∃ ts ms, l = .senderRestart ts ms) (hs : step true cap st l = some st1) :
     ¬ Aligned st1 ∧ st1.c.isOpen = false := by
   rcases hl with h | ⟨ts, ms, h⟩
   · subst h
@@ -839,7 +1001,7 @@ theorem unaligned_after_restart {cap : Nat} {st st1 : St τ μ} (hi : Inv st) (l
     have hid' : ss.id = st.s.sid + 1 := hid
     omega
 
-/-! ### the handshake whose response is lost: concrete schedule that breaks the prefix property -/
+/-! ### the code before 086aedd (`fixed = false`): concrete schedule with a lost Hello answer that breaks the prefix property -/
 
 def lostHelloSchedule : List (Label Nat Nat) :=
   [.reconnect true, .emit (.sub 1), .fetchSend, .deliver true, .deliverAck,   -- event 0 = Subscribe 1: sent, applied, acked
@@ -848,10 +1010,18 @@ def lostHelloSchedule : List (Label Nat Nat) :=
    .reconnect true,                                                           -- retry: same session id ⇒ clean_start=false, next=0
    .emit (.sub 2), .fetchSend, .deliver true]                                 -- event 1 = Subscribe 2 is applied as the first event
 
-theorem lostHello_run :
-    (run 100 lostHelloSchedule (init [] [])).map (fun st => (st.r.applied, st.s.hist, st.r.subs, st.s.topics,
-      st.r.sess.map (·.id), st.s.sid, st.c.up.length, st.s.q.rest.length, st.c.isOpen)) =
-    some ([.sub 2], [.sub 1, .sub 2], [2], [1, 2], some 0, 0, 0, 0, true) := by
-  rfl
+def summary (st : St Nat Nat) :=
+  (st.r.applied, st.s.hist, st.r.subs, st.s.topics, st.r.sess.map (·.id), st.s.sid, st.c.up.length, st.s.q.rest.length,
+   st.c.isOpen, st.s.q.dangling)
+
+/-- as the code was: Subscribe 2 is the only event R's new session ever sees -/
+theorem lostHello_run_as_is :
+    (run false 100 lostHelloSchedule (init [] [])).map summary =
+    some ([.sub 2], [.sub 1, .sub 2], [2], [1, 2], some 0, 0, 0, 0, true, none) := rfl
+
+/-- as the code is now: the second Hello is recognised (`next_event_id 0 < ackFloor 1`), S starts clean -/
+theorem lostHello_run_fixed :
+    (run true 100 (lostHelloSchedule ++ [.deliver true]) (init [] [])).map summary =
+    some ([.sub 1, .sub 2], [.sub 1, .sub 2], [1, 2], [1, 2], some 0, 0, 0, 0, true, none) := rfl
 
 end GmqttVerif.Fed.Proto
